@@ -13,6 +13,10 @@ are about.
         (harness: n requests of one source from g goroutines at one frozen instant; model: n sequential
          requests at that instant — requests refused at an instant change nothing
          (`C13_flood_free_same_instant`) and all n are identical, so the counts do not depend on the order)
+      park-reject -> ok ; unpark -> <resp> | noparked
+        (harness: the next refused request is held inside the limiter's ErrorHandler — after `consumeRates` returned its
+         error, before the handler reads it — and answers `parked`; `unpark` lets it finish.  Model: the decision and the
+         delay are those of the request itself, taken when it was issued.)
     cfg set <rates>
       at <ns> consume <amount>   -> ok | delay <ns> | err
       at <ns> update <rates>     -> ok
@@ -41,6 +45,8 @@ structure RateSt where
   solo : Option (List (String × Limiter))
   now : Nat
   last : Option Last
+  armed : Bool := false
+  parked : Option (String × Option Last) := none
 
 inductive St where
   | dead
@@ -107,6 +113,12 @@ def doReq (s : RateSt) (t : Nat) (src : String) (amount : Nat) (rates : List Rat
   let last := match r.2 with
     | .tooMany d => some ⟨now, src, amount, rates, d⟩
     | _ => s.last
+  if s.armed && s.solo.isNone && r.2 != .ok then
+    -- the refusal is held back in the error handler; the limiter state has already changed
+    (.rate { s with l := r.1, now := now, armed := false,
+                    parked := some (flag ++ respStr r.2, match r.2 with | .tooMany d => some ⟨now, src, amount, rates, d⟩ | _ => none) },
+     "parked")
+  else
   (.rate { s with l := r.1, solo := solo1, now := now, last := last }, flag ++ respStr r.2 ++ suffix ++ soloStr)
 
 /-- `n` sequential requests at one instant, counting the responses -/
@@ -130,8 +142,8 @@ def stepRate (s : RateSt) (f : List String) : St × String :=
     | some t, some amount, some rates => doReq s t src amount rates (Driver.kv f "evict") ""
     | _, _, _ => (.rate s, "bad-op")
   | "at" :: t :: "preq" :: src :: amount :: n :: g :: _ =>
-    match t.toNat?, amount.toNat?, n.toNat?, g.toNat?, ratesOf f, s.solo with
-    | some t, some amount, some n, some (_ + 1), some rates, none =>
+    match t.toNat?, amount.toNat?, n.toNat?, g.toNat?, ratesOf f, s.solo, s.armed with
+    | some t, some amount, some n, some (_ + 1), some rates, none, false =>
       let now := if t > s.now then t else s.now
       let choice := Driver.kv f "evict"
       let m1 := (s.l.sets.get src now).1
@@ -147,7 +159,13 @@ def stepRate (s : RateSt) (f : List String) : St × String :=
       let r := preqLoop s.l now src amount rates n choice (0, 0, 0)
       (.rate { s with l := r.1, now := now },
         flag ++ "200=" ++ toString r.2.1 ++ " 429=" ++ toString r.2.2.1 ++ " 500=" ++ toString r.2.2.2)
-    | _, _, _, _, _, _ => (.rate s, "bad-op")
+    | _, _, _, _, _, _, _ => (.rate s, "bad-op")
+  | ["park-reject"] =>
+    if s.solo.isSome || s.parked.isSome then (.rate s, "bad-op") else (.rate { s with armed := true }, "ok")
+  | ["unpark"] =>
+    match s.parked with
+    | none => (.rate s, "noparked")
+    | some (out, l) => (.rate { s with parked := none, last := match l with | some l => some l | none => s.last }, out)
   | "retry" :: _ =>
     match s.last with
     | none => (.rate s, "noretry")
@@ -255,7 +273,7 @@ def init (f : List String) : St × String :=
     | some (r :: rs) =>
       let cap := Driver.kvNat f "cap" 0
       let l := Limiter.new (r :: rs) cap
-      (.rate ⟨l, cap, if Driver.kvNat f "solo" 0 = 1 then some [] else none, 0, none⟩, "ok")
+      (.rate { l := l, cap := cap, solo := if Driver.kvNat f "solo" 0 = 1 then some [] else none, now := 0, last := none }, "ok")
     | _ => (.dead, "err badrate")
   | ["cfg", "set", rates] =>
     match parseRates rates with
